@@ -1,5 +1,5 @@
 #!/bin/sh
 # Independent re-check of the compiled development (takes minutes; run in the thorough tier / by hand).
 cd "$(dirname "$0")/../coq" || exit 2
-grep -rn 'Admitted\|admit\b\|Axiom\|Parameter\|Conjecture\|Unset Guard\|bypass_check' theories props gen extract/Extract.v | grep -v '^\S*:[0-9]*:\s*(\*' 
+grep -rn --include='*.v' 'Admitted\|admit\b\|Axiom\|Parameter\|Conjecture\|Unset Guard\|bypass_check' theories props gen extract/Extract.v | grep -v '^\S*:[0-9]*:\s*(\*' 
 timeout 3000 coqchk -silent -o -Q theories DV -Q gen DVGen -Q props DVProps $(ls props/*.vo | sed 's#props/\(.*\)\.vo#DVProps.\1#') 2>&1 | tail -40
